@@ -1,8 +1,3 @@
-import Driver.Util
-/-! Driver stub for C06: not built yet. -/
-namespace Driver.C06
-abbrev State := Unit
-def init : State := ()
-def step (st : State) (_toks : List String) : Option (State × String) := some (st, "bad-op")
-end Driver.C06
-def main : IO Unit := Driver.runLoop Driver.C06.init Driver.C06.step
+import Driver.ClusterOps
+/-! Driver for C06: the cluster op family on the node model. -/
+def main : IO Unit := Driver.runLoop ({} : Driver.ClusterOps.CState) Driver.ClusterOps.step
